@@ -26,6 +26,8 @@ def build(pid, P, R, tier, log_dir):
     if pid in ("C01", "C07"):
         obs.append(mp.XOb("X-lower_binary", "", "", lambda: run_arm(P, R, mp, log_dir, "Binary")))
         obs.append(mp.XOb("X-lower_unary", "", "", lambda: run_arm(P, R, mp, log_dir, "Unary")))
+    if pid in ("C13", "C17", "C01"):
+        obs.append(mp.XOb("X-lower_ctor", "", "", lambda: run_ctor(P, R, mp, log_dir, 2 if tier == "quick" else 3)))
     if pid in ("C01", "C05"):
         obs.append(mp.XOb("X-lower_index", "", "", lambda: run_arm(P, R, mp, log_dir, "Index")))
         obs.append(mp.XOb("X-lower_slice", "", "", lambda: run_arm(P, R, mp, log_dir, "Slice")))
@@ -337,7 +339,11 @@ def native_lower_tests(variant, opn, log_dir):
         tests.append(("def f(x: List[int], i: int) -> int:\n    return x[i]\n", r"return (.*?);", "x", "i", "Index"))
     else:
         for sl, want in (("a:b:c", "x (call:Some a) (call:Some b) (call:Some c)"), ("a:b", "x (call:Some a) (call:Some b) None"),
-                         (":b", "x None (call:Some b) None"), ("a:", "x (call:Some a) None None"), ("::c", "x None None (call:Some c)")):
+                         (":b", "x None (call:Some b) None"), ("a:", "x (call:Some a) None None"), ("::c", "x None None (call:Some c)"),
+                         # literal bounds (a lowering that treats particular literals specially shows here)
+                         ("0:b:c", "x (call:Some 0) (call:Some b) (call:Some c)"), ("0::c", "x (call:Some 0) None (call:Some c)"),
+                         ("a:b:1", "x (call:Some a) (call:Some b) (call:Some 1)"), ("0:b", "x (call:Some 0) (call:Some b) None"),
+                         ("1:0:c", "x (call:Some 1) (call:Some 0) (call:Some c)"), ("a:0:1", "x (call:Some a) (call:Some 0) (call:Some 1)")):
             tests.append((f"def f(x: List[int], a: int, b: int, c: int) -> List[int]:\n    return x[{sl}]\n", r"return (.*?);", want, None, "Slice"))
     texts, broken = [], False
     os.makedirs(log_dir, exist_ok=True)
@@ -363,3 +369,215 @@ def native_lower_tests(variant, opn, log_dir):
             broken = broken or not ok
             texts.append(f"[{prof}] `{src.strip().splitlines()[-1].strip()}` generated `{' '.join(m.group(1).split())}` -> {res[1]}")
     return broken, "; ".join(texts)
+
+
+# ---- `Name(args)`: validated-newtype rewrite / struct construction (C17 kernel, C13 constructor detection) -----------------------
+def run_ctor(P, R, mp, log_dir, bound=2):
+    """Call arm of AstLowering::lower_expr for a callee that is a plain identifier."""
+    import tc_props
+    t0 = time.time()
+    fs = [v for k, v in P.fns.items() if re.search(r"lower::expr::<impl at [^>]*>::lower_expr$", k)]
+    if len(fs) != 1:
+        raise Inconclusive("AstLowering::lower_expr not found (or ambiguous) in the MIR dump")
+    f = fs[0]
+    entry = arm_entry(f, "Call")
+    ex = mirx.make_executor(P, R, max_paths=2000000)
+    ex.opaque_calls = mirx.slice_opaque
+    ex.model_sequences = True
+    ex.seq_bound = bound
+    ex.recursion_bound = 1
+    ex.max_steps = 3000
+    ex.tolerate_unsupported = True
+    ex.summarize = tc_props.SUMMARIZE + [r"::lower_expr$", r"::lower_expr_spanned$", r"::lower_call_args$", r"HashMap::<.*>::(contains_key|get)(::<.*>)?$",
+                                         r"impl str>::chars$", r"Chars<.*> as .*Iterator>::next$", r"char::.*is_uppercase$", r"char::methods::.*",
+                                         r"BuiltinFn::from_name$", r"PartialEq>::(ne|eq)$", r"fmt::rt::Argument", r"Arguments::<.*>::(new|from_str_nonconst)",
+                                         r"must_use", r"IntoIter<.*> as .*Iterator>::map", r"IntoIterator>::into_iter$"]
+    selfv = ex.sym_value("AstLowering", "self")
+    expr = ex.sym_value("incan_syntax::ast::Expr", "expr")
+    evars = mp.variants(R, "incan_syntax::ast::Expr")
+    st0 = symex.State()
+    k = evars.index("Call")
+    st0.facts[expr.tag().term] = ("eq", k)
+    st0.pc.append(f"(= {expr.tag().term} {k})")
+    callee = expr.child("Call", 0).child(None, 0)       # Box<Spanned<Expr>> -> .node
+    IDENT = evars.index("Ident")
+    ex.call_stack = [f.name]
+    try:
+        outs = ex._run(f, [selfv, expr], {}, 0, st0, entry=entry, preset={})
+    finally:
+        ex.call_stack = []
+    args = expr.child("Call", 1)
+    name = callee.child("Ident", 0)
+    lnames = [x[0] for x in R.resolve("AstLowering").variants[0][1]]
+    nt_map = f"sym<{selfv.child(None, lnames.index('newtype_checked_ctor')).name}:"
+    st_map = f"sym<{selfv.child(None, lnames.index('struct_names')).name}:"
+    cavars = mp.variants(R, "incan_syntax::ast::CallArg")
+    bad, n_ok, classes, shapes = [], 0, {}, []
+    for o in outs:
+        fc = o.state.facts.get(callee.tag().term)
+        is_ident = fc and fc[0] == "eq" and fc[1] == IDENT
+        if o.kind == "unsupported":
+            bad.append((conj(o.pc + [f"(= {callee.tag().term} {IDENT})"]), f"unsupported MIR: {o.info}"))
+            continue
+        if o.kind != "return":
+            bad.append((conj(o.pc + [f"(= {callee.tag().term} {IDENT})"]), f"panic: {o.info}"))
+            continue
+        if not is_ident:
+            continue
+        v = ex.deref(o.value, o.state)
+        if isinstance(v, Adt) and v.variant == "Err":
+            continue
+        # the decisions taken on this path (answers of the summarised queries)
+        def answer(pred):
+            for e in o.events:
+                if pred(e):
+                    t = e[2]
+                    return True if t in o.pc else False if f"(not {t})" in o.pc else None
+            return None
+        known = answer(lambda e: e[0].endswith("contains_key") and e[1][0].startswith(st_map))
+        checked = answer(lambda e: e[0].endswith("contains_key") and e[1][0].startswith(nt_map))
+        upper_ev = [e for e in o.events if "is_uppercase" in e[0]]
+        upper = None
+        if upper_ev:
+            t = upper_ev[0][2]
+            upper = True if t in o.pc else False if f"(not {t})" in o.pc else None
+        outside_impl = answer(lambda e: e[0].endswith("::ne") or e[0].endswith("PartialEq::ne"))
+        n = o.state.facts.get("len:" + args.name)
+        a0 = mirx.seq_elem(ex, args, 0) if n else None
+        a0_pos = None
+        if a0 is not None and a0._tag is not None:
+            fa = o.state.facts.get(a0.tag().term)
+            a0_pos = (fa[0] == "eq" and cavars[fa[1]] == "Positional") if fa else None
+        text = mirx.show(v, ex, o.state)
+        is_struct = "IrExprKind::Struct(" in text
+        expect_ev = [e[2] for e in o.events if e[0].endswith("to_string") and any('"expect"' in a for a in e[1])]
+        is_rewrite = text.count("IrExprKind::MethodCall(") >= 2 and any(f"method: sym<{ev}:" in text for ev in expect_ev)
+        ctor_site = (known is True) or (upper is True)
+        n_ok += 1
+        if not ctor_site:
+            key = "not a constructor"
+            classes[key] = classes.get(key, 0) + 1
+            if is_struct or is_rewrite:
+                bad.append((conj(o.pc), f"a call of a name that is neither a known struct nor capitalised is lowered as a construction: {text[:160]}"))
+            continue
+        must_rewrite = checked is True and n == 1 and a0_pos is True and outside_impl is True
+        key = "validated newtype construction" if must_rewrite else "plain construction"
+        classes[key] = classes.get(key, 0) + 1
+        if len(shapes) < 4 and classes[key] == 1:
+            shapes.append(f"{key}: {text[:300]}")
+        lowered = {}
+        for e in o.events:
+            if e[0].endswith(("lower_expr", "lower_expr_spanned")) and len(e[1]) >= 2:
+                m = re.match(r"^sym<([^:>]+):", e[1][1])
+                if m:
+                    lowered[e[2]] = m.group(1)
+        if must_rewrite:
+            # T::<hook>(lower(x)).expect(..): the hook is called on the lowering of THE argument, on the type's own name
+            inner_ok = (is_rewrite and not is_struct and f"sym<{name.name}:" in text and "VarRefKind::TypeName" in text
+                        and any(ev + ".Ok.0" in text and a0.name in src for ev, src in lowered.items()))
+            if not inner_ok and os.environ.get("VERIF_DEBUG"):
+                print("DBG", text, lowered, a0.name)
+            if not inner_ok:
+                bad.append((conj(o.pc), f"`T(x)` of a newtype with a validation hook, outside T's own methods, is lowered to {text[:260]}"))
+        else:
+            if is_rewrite:
+                if checked is True and n == 1 and a0_pos is True and outside_impl is None:
+                    continue        # the inside-impl test was not decided on this path (cannot happen: it is the last conjunct)
+                bad.append((conj(o.pc), f"a construction that must stay plain ({'inside the own impl' if outside_impl is False else 'no hook / not one positional argument'}) is rewritten: {text[:200]}"))
+                continue
+            if not is_struct:
+                bad.append((conj(o.pc), f"a constructor call is lowered to {text[:200]}"))
+                continue
+            # fields in argument order, each the lowering of its own argument
+            order = []
+            for ev, src in lowered.items():
+                pos = text.find(ev + ".Ok.0")
+                m = re.search(re.escape(args.name) + r"\.e(\d+)\.", src)
+                if pos >= 0 and m:
+                    order.append((pos, int(m.group(1))))
+            got_order = [i for _, i in sorted(order)]
+            if got_order != list(range(n or 0)):
+                bad.append((conj(o.pc), f"struct fields are built from arguments {got_order}, the call has {n} arguments in order"))
+    r = {"id": "X-lower_ctor", "engine": "E2-X mirsmt (slice)",
+         "statement": "lowering of `Name(args)`: when Name is a known struct or capitalised it is a construction; if Name has a validation hook "
+                      "recorded, the call has exactly one positional argument and the site is not inside Name's own methods, the IR is "
+                      "`Name::<hook>(lowering of the argument).expect(..)` (the hook cannot be bypassed); otherwise a struct literal whose fields "
+                      "are the lowerings of the arguments in order; other names are never lowered as constructions",
+         "bound": f"Call arm of AstLowering::lower_expr with an identifier callee; 0..={bound} arguments, positional or named; the answers of "
+                  "struct_names / newtype_checked_ctor lookups, the capitalisation test and the inside-own-impl comparison are arbitrary; which hook is "
+                  "recorded (select_newtype_checked_ctor) and the run-time behaviour of the hook are not part of this obligation",
+         "encoding": "call expression as a symbolic ADT, argument list as a symbolic sequence, map lookups and string tests as arbitrary booleans",
+         "functions_encoded": [n_ + " (MIR)" for n_ in ex.encoded], "paths": len(outs), "compositions": classes, "shapes": shapes}
+    r["wall_s"] = round(time.time() - t0, 2)
+    if not {"validated newtype construction", "plain construction", "not a constructor"} <= set(classes):
+        first = next((w for b, w in bad if b != "false"), "-")
+        return native_ctor(r, f"not every case was reached ({classes}); first problem: {first[:300]}", log_dir)
+    r["vacuity_ok"] = True
+    live = [(b, w) for b, w in bad if b != "false"]
+    for b, w in live:
+        res = solver.check(mp.smt_lines(ex, [b]), [], "z3", 60)
+        if res.status != "unsat":
+            return native_ctor(r, w, log_dir)
+    r.update(status="held", solver=f"{n_ok} paths follow the documented decision" + (f"; {len(live)} deviating paths infeasible (z3 unsat)" if live else " (syntactic)"))
+    return r
+
+
+CTOR_PROGRAM = '''type Email = newtype str:
+    def from_underlying(s: str) -> Result[Email, str]:
+        if len(s) == 0:
+            return Err("empty")
+        return Ok(Email(s))
+
+    def make_raw(s: str) -> Email:
+        return Email(s)
+
+model Pair:
+    a: int
+    b: int
+
+def build(s: str) -> Email:
+    return Email(s)
+
+def pair(x: int, y: int) -> Pair:
+    return Pair(a=x, b=y)
+'''
+
+
+def native_ctor(r, why, log_dir):
+    import kani
+    os.makedirs(log_dir, exist_ok=True)
+    path = os.path.join(log_dir, "ctor_replay.incn")
+    with open(path, "w") as fh:
+        fh.write(CTOR_PROGRAM)
+    texts, broken = [], False
+    for prof in ("dev", "release"):
+        binp = kani.build_replay(prof, True, log_dir)
+        rc, out, _, to = common.run([binp, "emitrust", path], timeout=120)
+        src = re.sub(r"\s+", "", out)
+        m_build = re.search(r"fnbuild\(s:String\)->Email\{(.*?)\}fn", src)
+        m_raw = re.search(r"fnmake_raw\(s:String\)->Email\{(.*?)\}", src)
+        ok = ("RUST-END" in out and m_build is not None and "Email::from_underlying(" in m_build.group(1) and ".expect(" in m_build.group(1)
+              and m_raw is not None and "from_underlying" not in m_raw.group(1) and re.search(r"Pair\{a:x,b:y,?\}", src) is not None)
+        if not ok:
+            broken = True
+            texts.append(f"[{prof}] build(): {m_build.group(1)[:120] if m_build else None}; make_raw(): {m_raw.group(1)[:80] if m_raw else None}; ...{out.strip()[-200:] if 'RUST-END' not in out else ''}")
+    text = "; ".join(texts) or "Email(s) outside the type goes through from_underlying(..).expect(..), inside its own method it stays plain, Pair(a=x, b=y) is a struct literal"
+    r["native"] = text
+    if broken:
+        os.makedirs(os.path.join(common.REPLAYS_DIR, "MIRX"), exist_ok=True)
+        rp = os.path.join(common.REPLAYS_DIR, "MIRX", r["id"] + ".replay")
+        with open(rp, "w") as fh:
+            fh.write(f"mirx ctor\n# {r['statement']}\n# solver: {why[:400]}\n# native: {text}\n")
+        r.update(status="violated", replay=rp, counterexample={"path": why[:500], "native": text})
+    else:
+        r.update(status="inconclusive", reason=f"a feasible path deviates ({why[:300]}) but the construction program is emitted as documented")
+    return r
+
+
+def replay_ctor(pid, line, path):
+    r = native_ctor({"id": "replay", "statement": ""}, "", os.path.join(common.WORK_DIR, pid, "replay"))
+    say(r.get("native", ""))
+    if r.get("status") == "violated":
+        say(f"VIOLATION property={pid} replay={path}")
+        return 1
+    return 0
